@@ -12,6 +12,7 @@ Open Scope Z_scope.
             7 archive only: EpsilonBoxArchive offered k9_off (EpsMOEA children; initial populations)
             8 archive only: Archive(EpsilonDominance) offered k9_off (OMOPSO particles, CMAES population)
             9 archive only: Archive() offered k9_off by "+="  (CMAES without epsilons; NSGAII.initialize)
+            10 GeneticAlgorithm.initialize: k9_off = the generated population, k9_surv = the sorted one
    k9_pool  the solution objects of the step, object number i (its identity) at position i: (objectives, violation)
    k9_par / k9_off / k9_surv   identities: population before, offspring batch (in order), population after
    k9_arch  (archive contents before, after) as identities *)
@@ -117,6 +118,11 @@ Definition c09_check (k : c09case) : bool :=
       | 7%nat => eps_arch_ok cfg pool off (k9_arch k) true
       | 8%nat => eps_arch_ok cfg pool off (k9_arch k) false
       | 9%nat => match k9_arch k with None => false | Some _ => pareto_arch_ok c dirs pool off (k9_arch k) false end
+      | 10%nat =>
+          match ga_initialize (x_sol_cmp c dirs) off with
+          | Some (pop, f) => nats_eqb (sids pop) (k9_surv k) && nats_eqb [sid f] (firstn 1 (k9_surv k))
+          | None => false
+          end
       | _ => false
       end
   | _, _ => false
